@@ -303,7 +303,8 @@ def case_kw(acc, k):
 NEG_TEMPLATES = ["(** {n} 2)", "(** 2 {n})", "(- {n})", "(- 1 {n})", "(. {n} real)", "(.conjugate {n})", "(get [1 2 3] {n})", "(cut [1 2 3] {n})",
                  "(* {n} {n})", "(abs {n})", "(not {n})", "(bnot {n})", "[{n} (- {n})]", "(match {n} {n} \"same\" _ \"other\")", "f\"{{{n}}}\"",
                  "(% {n} 3)", "(// {n} 2)", "(< {n} 0 (- {n}))", "(setv q {n}) (setv r (+= q {n}))"]
-NEG_LITERALS = ["-1", "-1.5", "-0.0", "-2j", "-1-2j", "-0", "-1e3", "-0x1F", "-1_000", "1", "0.0"]
+NEG_LITERALS = ["-1", "-1.5", "-0.0", "-2j", "-1-2j", "-0", "-1e3", "-0x1F", "-1_000", "1", "0.0",
+                "(- 3)", "(- 1.5)", "(+ 3)", "(- 0.0)", "(- (- 3))"]     # the one-argument sign operators applied to a literal
 
 
 def case_neg(acc, ti, n):
